@@ -1,5 +1,6 @@
 (* m_codec.ml — modelrun modes for C01 C02 C06: parse / encode / ctor *)
 open Model
+type string = String.t
 open Util
 
 let rec tree_of (v : resp) : string =
